@@ -13,7 +13,7 @@ BAD_CHAR_PREDICATES = ("is_numeric", "is_alphanumeric", "is_alphabetic", "is_dig
 def run(chk, tier):
     P = Prog("default")
     chk.configs.add("default")
-    for r in (r_reader_shape, r_offset_bound, r_entry, r_writer, r_year_box, r_ascii, r_absint, r_flow, r_own_ranges):
+    for r in (r_reader_shape, r_offset_bound, r_entry, r_writer, r_year_box, r_fraction_templates, r_ascii, r_absint, r_flow, r_own_ranges):
         chk.guarded(r, P, tier)
     chk.assume("that the accepted language equals the RFC 3339 grammar for every string, the values returned and the round trip are NOT decided; the grammar side is specs (appendix A.5)")
     return {
@@ -134,6 +134,39 @@ def r_year_box(chk, P, tier):
     hi = max((b[1] for b in boxes if b[1] is not None), default=None)
     ok = all(b[0] is not None and b[1] is not None for b in boxes) and (lo, hi) == (0, 9999)
     chk.expect(ok, "year range", "write_rfc3339 takes the four-digit form for years in %s, expected exactly 0..=9999" % sorted(set(boxes)), loc=P.loc(WR))
+
+
+def r_fraction_templates(chk, P, tier):
+    """the fraction is printed with the same format template wherever the same number of digits is printed (Millis arm and the AutoSi arm that chooses
+    three digits, ...), and the templates of the three widths differ only in the width, which is the digit count the divisor leaves: 10^6 -> 3, 10^3 -> 6, 1 -> 9"""
+    chk.rule("SIB.fraction_templates", "write_rfc3339 prints nano / 10^6, nano / 10^3 and nano each with ONE format template; the three differ only in a width of 3 / 6 / 9", floor=4)
+    groups = {}
+    for p in Sym(P, WR).paths():
+        for c in p.calls:
+            if not (isinstance(c[1], str) and c[1].endswith("Arguments::<'a>::new") and len(c[2]) >= 2):
+                continue
+            arg = c[2][1]
+            if not any(is_call(x, suffix="nanosecond") for x in walk_terms(arg)):
+                continue
+            divs = [const_of(x[3]) for x in walk_terms(arg) if x[0] == "bin" and x[1] == "Div" and const_of(x[3]) in (1000, 1000000)]
+            k = divs[0] if divs else 1
+            tmpl = const_of(unref(c[2][0])) if c[2][0][0] in ("ref", "deref") else const_of(c[2][0])
+            t = c[2][0]
+            while t[0] in ("ref", "deref"):
+                t = t[1]
+            tmpl = const_of(t)
+            groups.setdefault(k, set()).add(tmpl if isinstance(tmpl, (tuple, str, int)) else pp(t))
+    if set(groups) != {1, 1000, 1000000}:
+        raise AnchorLost("write_rfc3339: fraction templates found for divisors %s" % sorted(groups))
+    for k, want in ((1000000, 3), (1000, 6), (1, 9)):
+        chk.expect(len(groups[k]) == 1, "one template for %d digits" % want, "write_rfc3339 prints the %d-digit fraction with %d different format templates (the arms disagree on padding / width): %s" % (
+            want, len(groups[k]), sorted(map(str, groups[k]))[:3]), loc=P.loc(WR))
+    ts = {k: list(v)[0] for k, v in groups.items()}
+    ok = all(isinstance(t, tuple) for t in ts.values()) and len({len(t) for t in ts.values()}) == 1
+    if ok:
+        diff = [i for i in range(len(ts[1])) if len({ts[k][i] for k in ts}) > 1]
+        ok = len(diff) == 1 and (ts[1000000][diff[0]], ts[1000][diff[0]], ts[1][diff[0]]) == (3, 6, 9)
+    chk.expect(ok, "widths 3 / 6 / 9", "the fraction templates of write_rfc3339 differ in more than the width, or the widths are not 3 / 6 / 9: %s" % {k: str(v) for k, v in ts.items()}, loc=P.loc(WR))
 
 
 def r_writer(chk, P, tier):
